@@ -405,6 +405,28 @@ def proof_leg(prop, theorems, allowed_axioms=()):
                 problems.append({"kind": "statement", "detail": "statement of %s differs from the pinned one" % t})
     else:
         problems.append({"kind": "statement", "detail": "no pinned statements (%s)" % exp_path})
+    # thorough tier: independent re-check of the compiled property file and everything it depends on
+    coqchk = None
+    if os.environ.get("VERIF_TIER") == "thorough":
+        pc = subprocess.run(["timeout", "3000", "coqchk", "-o", "-silent", "-Q", ".", "VRL", "VRL.Properties.%s" % prop],
+                            cwd=COQ, stdout=subprocess.PIPE, stderr=subprocess.STDOUT, text=True)
+        secs = {}
+        for mm in re.finditer(r"^\* ([^:\n]+):(.*?)(?=^\* |\Z)", pc.stdout, re.S | re.M):
+            secs[mm.group(1).strip()] = [x.strip() for x in mm.group(2).strip().split("\n") if x.strip() and x.strip() != "<none>"]
+        want = ["Axioms", "Constants/Inductives relying on type-in-type",
+                "Constants/Inductives relying on unsafe (co)fixpoints", "Inductives whose positivity is assumed"]
+        if pc.returncode != 0 or any(w not in secs for w in want) or "Theory: Set is predicative" not in pc.stdout:
+            problems.append({"kind": "assumptions", "detail": "coqchk failed: " + pc.stdout[-1500:]})
+        else:
+            coqchk = {"axioms": secs["Axioms"]}
+            for a in secs["Axioms"]:
+                # coqchk lists the axioms of every loaded library, used by the theorem or not: those the
+                # standard library declares (Coq.*) are allowed and recorded, anything else is forbidden
+                if not a.startswith("Coq.") and not any(a.endswith(x) for x in allowed_axioms):
+                    problems.append({"kind": "forbidden", "detail": "coqchk: dependency on axiom %s" % a})
+            for w in want[1:]:
+                if secs[w]:
+                    problems.append({"kind": "forbidden", "detail": "coqchk: %s: %s" % (w, secs[w][:5])})
     bad = set()
     for pr in problems:
         mt = re.search(r"(C\d+_\w+)", pr["detail"])
@@ -412,7 +434,7 @@ def proof_leg(prop, theorems, allowed_axioms=()):
             bad.add(mt.group(1))
     discharged = 0 if any(p["kind"] in ("build", "forbidden", "assumptions") for p in problems) else len(theorems) - len(bad)
     return {"obligations": len(theorems), "discharged": discharged, "problems": problems, "axioms": axioms,
-            "statements": statements, "deps": deps}
+            "statements": statements, "deps": deps, "coqchk": coqchk}
 
 
 def pin_statements(prop, theorems):
